@@ -9,46 +9,6 @@ import ExoModel.Lemmas.WfShapes2
 namespace Exo.WfShapes
 open Exo Exo.Wf Exo.Rw
 
-/-! ### the symbols a term mentions (free or binding; callee bodies are separate scopes) -/
-
-mutual
-def symsE : Expr → List Sym
-  | .read x idx => x :: symsEs idx
-  | .lit _ => []
-  | .usub e => symsE e
-  | .binop _ a b => symsE a ++ symsE b
-  | .extern _ args => symsEs args
-  | .win x acc => x :: symsWs acc
-  | .stride x _ => [x]
-  | .readcfg _ _ => []
-def symsEs : List Expr → List Sym
-  | [] => []
-  | e :: r => symsE e ++ symsEs r
-def symsW : WAcc → List Sym
-  | .interval lo hi => symsE lo ++ symsE hi
-  | .point e => symsE e
-def symsWs : List WAcc → List Sym
-  | [] => []
-  | a :: r => symsW a ++ symsWs r
-end
-
-mutual
-def symsS : Stmt → List Sym
-  | .assign x idx e => x :: (symsEs idx ++ symsE e)
-  | .reduce x idx e => x :: (symsEs idx ++ symsE e)
-  | .writecfg _ _ e _ => symsE e
-  | .pass => []
-  | .ite c t e => symsE c ++ (symsL t ++ symsL e)
-  | .loop i lo hi b _ => i :: (symsE lo ++ (symsE hi ++ symsL b))
-  | .alloc x sh => x :: symsEs sh
-  | .free x => [x]
-  | .call _ args => symsEs args
-  | .window x e => x :: symsE e
-def symsL : List Stmt → List Sym
-  | [] => []
-  | s :: r => symsS s ++ symsL r
-end
-
 /-! ### expressions -/
 
 section
